@@ -287,6 +287,7 @@ fn judge(ctx: &mut Ctx, p: &Prepared, shp: &[u8], n_shp: usize, shx: &[u8], rbuf
             }
             Ok(Some((items, capped))) => {
                 let _ = capped;
+                ctx.stats.steps += items.len() as u64 + 1; // logical step = one reader call on a crash image
                 if let Some(v) = prefix_violation(&items, &p.expected) {
                     ctx.fail("C11", "prefix", "noshx", format!("index-less read: {}", v));
                 }
@@ -306,6 +307,7 @@ fn judge(ctx: &mut Ctx, p: &Prepared, shp: &[u8], n_shp: usize, shx: &[u8], rbuf
             Ok(None) => ctx.stats.reach("indexed-open-failed"),
             Ok(Some((items, capped, nth))) => {
                 let _ = capped;
+                ctx.stats.steps += (items.len() + nth.len()) as u64 + 1;
                 if let Some(v) = prefix_violation(&items, &p.expected) {
                     ctx.fail("C11", "prefix", "shx", format!("indexed read: {}", v));
                 }
